@@ -1,4 +1,5 @@
 import TinsModel.Reassembly.Independence
+import TinsModel.Reassembly.Policy
 /-
   Helper lemmas for C08, part 7: ARBITRARY sessions with the reassembler — any packets whatsoever (overlapping
   fragments, different lengths at one offset, several "last" fragments, a last fragment that ends before data already
@@ -36,9 +37,6 @@ def sessionOut (parse : UpperParse) : Streams → List Op → List (Option (Out 
 theorem reach_snoc (parse : UpperParse) (ops : List Op) (o : Op) :
     reach parse (ops ++ [o]) = (opStep parse (reach parse ops) o).1 := by
   simp [reach, List.foldl_append]
-
-/-- `process` takes the fragment path: there is an IP layer with a payload and `is_fragmented()` -/
-def isFragPkt (p : Pkt) : Bool := p.hasIP && !p.inner.isNone && isFragmented p.hdr
 
 theorem isFragPkt_eq_not_notFrag (p : Pkt) : isFragPkt p = !notFrag p := by simp [isFragPkt, notFrag]
 
